@@ -85,9 +85,8 @@ def ensure_monitor(tier):
         import twosigma.memento as m
 
         d = os.path.dirname(m.__file__)
-        files = [os.path.join(d, "runner_local.py"), os.path.join(d, "storage_base.py"), os.path.join(d, "storage_memory.py")]
-        if tier == "thorough":
-            files.append(os.path.join(d, "storage_filesystem.py"))
+        files = [os.path.join(d, "runner_local.py"), os.path.join(d, "storage_base.py"), os.path.join(d, "storage_memory.py"),
+                 os.path.join(d, "storage_filesystem.py")]
         _MON.append(sched.Monitor(files, d))
         _MON.append(sched.install_locks())
     return _MON[1]
@@ -178,6 +177,12 @@ def provenance(scenario):
     return out
 
 
+def ffuncs_mod():
+    from vf import ffuncs
+
+    return ffuncs
+
+
 def make_body(ops, out_list):
     def body():
         from twosigma.memento.call_stack import CallStack
@@ -245,6 +250,21 @@ def controlled_run(root, scenario, store, budget, strategy):
     for sig, msg in (cache_invariant(st._memory_cache) if getattr(st, "_memory_cache", None) is not None else []):
         bad.append(("memory cache accounting after the threads finished: " + sig, msg))
     state = cache_state(st)
+    if not bad:
+        # every distinct call is memoized once the threads have finished: calling each again runs no body
+        # (asked through a new, cache-less backend object over the same directory: what a later process would find)
+        if store != "cold_mem":
+            env.set_env(os.path.join(root, "env-after"), default_storage=env.fs_backend(os.path.join(root, "data")))
+        mark2 = REC.mark()
+        for fn, k in sorted(entries_of(scenario)):
+            try:
+                getattr(ffuncs_mod(), fn)(k)
+            except Exception as e:
+                bad.append(("a call made after the threads finished fails", "%s(%s): %r" % (fn, k, e)))
+        again = [(e[0], e[1][0]) for e in REC.since(mark2)]
+        if again:
+            bad.append(("a call computed while threads ran concurrently is not memoized afterwards",
+                        "bodies run again by sequential calls after the threads finished: %s" % again))
     if not bad:
         prov = provenance(scenario)
         if prov not in PROV:
